@@ -17,7 +17,7 @@ META = {
                     "parking is compared on qubit-disjoint subsets only (a qubit taking part in two gates is never an accepted step)"],
     "exhaustive": {"quick": True, "thorough": True},
     "floors": {
-        "quick": {"subsets_checked": 2900, "subset_orders_checked": 6000, "parking_queries": 12000, "sequences_checked": 150, "sequence_generator_calls": 100, "non_divisible_generator_calls": 10, "sequence_step_parking_checks": 300, "accepted_subsets": 150, "rejected_subsets": 1500},
+        "quick": {"subsets_checked": 2900, "subset_orders_checked": 6000, "parking_queries": 12000, "sequences_checked": 80, "sequence_generator_calls": 100, "non_divisible_generator_calls": 10, "sequence_step_parking_checks": 150, "accepted_subsets": 150, "rejected_subsets": 1500},
         "thorough": {"subsets_checked": 15000, "parking_queries": 30000, "sequences_checked": 800},
     },
 }
